@@ -163,6 +163,12 @@ func funcCallback(b bodySpec, constFor func(int) any, calls *int) func(any, []an
 			out = append(out, x)
 			return append(out, a...)
 		case "args":
+			if len(a) == 0 {
+				// an empty slice of the VM's buffer and the literal [] differ in
+				// Go identity only, which the VM's path check can see for empty
+				// containers: an accident of allocation, not the property
+				return []any{}
+			}
 			return a // the slice itself: retained by the result
 		case "errval":
 			return &valueErr{cv}
@@ -1081,7 +1087,7 @@ func runCustom(t *testing.T) {
 	rec.Exhaustive("custom: arities 0..30 x body kinds x {alone, shadowing an earlier registration, beside a later one}", complete)
 
 	// (R1) own context grammar
-	rec.Rapid(t, "custom-ctx", rec.Scale(36000, 1500000), func(t *rapid.T) {
+	rec.Rapid(t, "custom-ctx", rec.Scale(36000, 800000), func(t *rapid.T) {
 		regs := genRegs(t, noRetained)
 		pathy := rapid.IntRange(0, 9).Draw(t, "pathy") < 5
 		navfree := pathy && navKnown
@@ -1107,7 +1113,7 @@ func runCustom(t *testing.T) {
 	// by calls
 	plain := gen.Program(gen.Conf{AltPat: true, AltPatFree: true, Builtins: true, MaxNodes: 30})
 	pathful := gen.Program(gen.Conf{AltPat: true, AltPatFree: true, Builtins: true, Paths: true, Update: true, MaxNodes: 30})
-	rec.Rapid(t, "custom-prog", rec.Scale(24000, 1000000), func(t *rapid.T) {
+	rec.Rapid(t, "custom-prog", rec.Scale(24000, 500000), func(t *rapid.T) {
 		regs := genRegs(t, noRetained)
 		pathy := rapid.Bool().Draw(t, "pathy")
 		var p gen.Prog
